@@ -111,12 +111,24 @@ class World:
         self.loop.on_task_created = self._task_created
         world = self
 
+        cbplan = spec.get('cb') or {}
+
+        async def _yields(kind, i=None):
+            # the collaborator suspends: `k` bare yields (spec['cb'])
+            k = cbplan.get(kind, 0)
+            if isinstance(k, dict):
+                k = k.get(str(i), 0)
+            for _ in range(k):
+                await asyncio.sleep(0)
+
         class Events:
             async def on_pipeline_start(self, ctx):
                 world.obs.append(['emit', 'pstart', _rid(), None, None])
+                await _yields('pstart')
 
             async def on_pipeline_complete(self, ctx, result):
                 world.obs.append(['emit', 'pcomplete', _rid(), None, _res_canon(result)])
+                await _yields('pcomplete')
 
             async def on_node_start(self, ctx, node_id):
                 r = CURRENT_RUN.get()
@@ -124,18 +136,22 @@ class World:
                 r.starts[i] = r.starts.get(i, 0) + 1
                 r.calls[i] = 0
                 world.obs.append(['emit', 'nstart', r.rid, i, None])
+                await _yields('nstart', i)
 
             async def on_node_complete(self, ctx, node_id, error):
                 i = world.index_of.get(node_id, -1)
                 world.obs.append(['emit', 'ncomplete', _rid(), i,
                                   None if error is None else progen.exc_ident(error)])
+                await _yields('ncomplete', i)
 
         class Store:
             def __init__(self, ctx):
                 self.ctx = ctx
 
             async def save(self, node_id, data):
-                world.obs.append(['save', _rid(), world.index_of.get(node_id, -1), progen.canon(data)])
+                i = world.index_of.get(node_id, -1)
+                world.obs.append(['save', _rid(), i, progen.canon(data)])
+                await _yields('save', i)
 
             async def load(self, node_id):
                 raise KeyError(node_id)
@@ -203,6 +219,16 @@ class World:
             nm = ['dag']
         return nm
 
+    def _fresh(self, inst):
+        # the engine creates a new node object for every invocation: a reused one is reported in the trace
+        used = getattr(inst, '_mlpe_used', False)
+        try:
+            inst._mlpe_used = True
+        except Exception:  # noqa
+            pass
+        if used:
+            self.obs.append(['reused-instance', type(inst).__name__])
+
     def _counters(self, idx):
         r = CURRENT_RUN.get()
         r.calls[idx] = r.calls.get(idx, 0) + 1
@@ -222,6 +248,7 @@ class World:
         return ('ok', b['v'])
 
     async def abody(self, idx, inst, kw):
+        self._fresh(inst)
         r, inv, att = self._counters(idx)
         self.obs.append(['body', r.rid, idx, inv, att, {progen._key(k): progen.canon(v) for k, v in kw.items()}])
         out = self._outcome(idx, inst, kw, inv, att)
@@ -234,6 +261,7 @@ class World:
         return out[1]
 
     def sbody(self, idx, inst, kw):
+        self._fresh(inst)
         r, inv, att = self._counters(idx)
         self.obs.append(['body', r.rid, idx, inv, att, {progen._key(k): progen.canon(v) for k, v in kw.items()}])
         out = self._outcome(idx, inst, kw, inv, att)
